@@ -165,7 +165,13 @@ func instanceOf(tr tracing.ITrace) string {
 
 // AnswerSpec says how one request of one activity is answered.
 type AnswerSpec struct {
-	Never bool `json:"never,omitempty"`
+	Mode     string         `json:"mode,omitempty"`    // "" ok, "err" (no handler), "skip", "exit", "retry", "never"
+	Retries  int            `json:"retries,omitempty"` // for retry
+	Calls    int            `json:"calls,omitempty"`   // number of Do calls (default 1)
+	Conc     bool           `json:"conc,omitempty"`    // Do calls from concurrent goroutines
+	Results  map[string]any `json:"results,omitempty"` // extra result fields of the first call (call i>1 gets a "#i" suffix on strings)
+	Objects  map[string]any `json:"objects,omitempty"` // data outputs
+	LateHandler bool        `json:"lateHandler,omitempty"` // the error handler decision is sent only after the engine quiesced
 }
 
 type pendingReq struct {
@@ -185,12 +191,14 @@ type ProcCase struct {
 	Events   []EvPlan `json:"events,omitempty"`
 	CancelAt int      `json:"cancelAt,omitempty"` // cancel when this many traces were observed (0 = never)
 	NoAnswer map[string]bool `json:"noAnswer,omitempty"`
+	Scripts  map[string][]AnswerSpec `json:"scripts,omitempty"` // per activity: how its k-th request is answered
 	Shutdown bool     `json:"shutdown,omitempty"` // cancel at the end and observe the shutdown
 	StartMode int     `json:"startMode,omitempty"` // 0 StartAll, 1 StartWith one after the other, 2 StartWith from concurrent goroutines
 	StartOnly []string `json:"startOnly,omitempty"` // with StartMode 1/2: the start events to fire (in this order); empty = all
 	Waiters  []WaiterPlan `json:"waiters,omitempty"` // empty = one plain waiter
 	AnsDelayMs int    `json:"ansDelayMs,omitempty"` // fake time the answerer lets pass before each answer
 	Rounds   bool     `json:"rounds,omitempty"` // answer the r-th request of every activity before any (r+1)-th
+	LogProps bool     `json:"logProps,omitempty"`
 	Meta     map[string]int `json:"meta,omitempty"`
 	Objs     map[string]any `json:"objs,omitempty"` // initial data objects
 
@@ -293,6 +301,17 @@ func (c *ProcCase) Main() {
 				} else if isCancelled.Get() == 1 {
 					L.Add("req-live-after-cancel", a, "", seq[a])
 				}
+				if c.LogProps {
+					pv := map[string]any{}
+					for name, it := range tt.GetProperties() {
+						if it != nil {
+							pv[name] = it.Value()
+						} else {
+							pv[name] = nil
+						}
+					}
+					L.AddV("props", a, pv)
+				}
 				reqs <- pendingReq{tt: tt, act: a, seq: seq[a]}
 			}
 			if c.CancelAt > 0 && n == c.CancelAt {
@@ -391,6 +410,14 @@ func (c *ProcCase) Main() {
 			}
 			answers[r.act]++
 			n := answers[r.act]
+			spec := AnswerSpec{}
+			if sc := c.Scripts[r.act]; r.seq-1 < len(sc) {
+				spec = sc[r.seq-1]
+			}
+			if spec.Mode == "never" {
+				L.Add("noanswer", r.act, "", r.seq)
+				continue
+			}
 			res := map[string]any{"r_" + r.act: fmt.Sprintf("%s#%d", r.act, n), "u_" + r.act: "undeclared"}
 			if node, _ := c.Prog.Defs.Procs[0].FindNode(r.act); node != nil {
 				if node.Counter != "" {
@@ -400,8 +427,89 @@ func (c *ProcCase) Main() {
 					res[k] = node.Writes[k]
 				}
 			}
-			L.AddV("ans", r.act, res)
-			r.tt.Do(bpmn.DoWithResults(res))
+			for _, k := range sortedKeys(spec.Results) {
+				res[k] = spec.Results[k]
+			}
+			calls := spec.Calls
+			if calls < 1 {
+				calls = 1
+			}
+			doOne := func(ci int) {
+				var opts []bpmn.DoOption
+				switch spec.Mode {
+				case "":
+					rr := map[string]any{}
+					for k, v := range res {
+						rr[k] = v
+					}
+					// every call carries a distinguishable payload
+					rr["r_"+r.act] = fmt.Sprintf("%s#%d.%d", r.act, n, ci)
+					if calls == 1 {
+						rr["r_"+r.act] = res["r_"+r.act]
+					}
+					opts = append(opts, bpmn.DoWithResults(rr))
+					if len(spec.Objects) > 0 {
+						opts = append(opts, bpmn.DoWithObjects(spec.Objects))
+					}
+					L.AddV("do-call", fmt.Sprintf("%s/%d/%d", r.act, r.seq, ci), rr)
+				case "err":
+					opts = append(opts, bpmn.DoWithErr(fmt.Errorf("boom %s#%d", r.act, n)))
+					L.AddV("do-call", fmt.Sprintf("%s/%d/%d", r.act, r.seq, ci), nil)
+				default:
+					hch := make(chan bpmn.ErrHandler, 1)
+					h := bpmn.ErrHandler{Mode: bpmn.SkipMode}
+					if spec.Mode == "exit" {
+						h.Mode = bpmn.ExitMode
+					} else if spec.Mode == "retry" {
+						h.Mode = bpmn.RetryMode
+						h.Retries = int32(spec.Retries)
+					}
+					if spec.LateHandler {
+						go func() {
+							select {
+							case <-time.After(50 * time.Millisecond):
+								env.fault("error-handler-decision-late")
+								hch <- h
+							case <-stop:
+							}
+						}()
+					} else {
+						hch <- h
+					}
+					opts = append(opts, bpmn.DoWithErrHandle(fmt.Errorf("boom %s#%d", r.act, n), hch))
+					L.AddV("do-call", fmt.Sprintf("%s/%d/%d", r.act, r.seq, ci), nil)
+				}
+				r.tt.Do(opts...)
+				L.Add("do-ret", fmt.Sprintf("%s/%d/%d", r.act, r.seq, ci), "", 0)
+			}
+			if spec.Mode == "" {
+				logged := map[string]any{}
+				for k, v := range res {
+					logged[k] = v
+				}
+				if len(spec.Objects) > 0 {
+					logged["__objects"] = spec.Objects
+				}
+				L.AddV("ans", r.act, logged)
+			} else {
+				L.Add("ans-"+spec.Mode, r.act, "", spec.Retries)
+			}
+			if calls > 1 {
+				env.fault("duplicate-answer")
+			}
+			if spec.Conc && calls > 1 {
+				env.fault("concurrent-answers")
+				dd := make(chan struct{}, calls)
+				for ci := 1; ci <= calls; ci++ {
+					ci := ci
+					go func() { doOne(ci); dd <- struct{}{} }()
+				}
+				// do not wait for them: a Do call that blocks must not stop the answerer
+			} else {
+				for ci := 1; ci <= calls; ci++ {
+					doOne(ci)
+				}
+			}
 			L.Add("ans-ret", r.act, "", n)
 		}
 	}()
@@ -516,11 +624,18 @@ func (c *ProcCase) Main() {
 	}
 
 	// terminal quiescence: nothing happened during a whole watchdog period of fake time
+	stagnant := 0
 	for {
 		prev := L.Len()
 		<-time.After(watchdog)
-		if L.Len() == prev && idle.Get() == 1 {
-			break
+		if L.Len() == prev {
+			stagnant++
+			if idle.Get() == 1 || stagnant >= 3 {
+				// (an answerer stuck inside a Do call never becomes idle: do not wait for it forever)
+				break
+			}
+		} else {
+			stagnant = 0
 		}
 	}
 	L.Add("quiescent", "", "", 0)
